@@ -18,6 +18,8 @@
 (*  {"k":"upd","key":c,"v":v,"mod":b} | {"k":"rem","key":c,"mod":b} |      *)
 (*  {"k":"clr","mod":b} | {"k":"take"|"drop","n":n,"mod":b}    map lane    *)
 (*  {"k":"write","res":"nodata|done|more|reqev","frames":[frame..]}        *)
+(*  {"k":"nop"}      a command that was rejected before it reached the     *)
+(*                   lane (undecodable body): the lane must be unchanged   *)
 (*  any of them may carry "cur": what the lane really holds afterwards     *)
 (*  (a number, or the map as the sequence of the values of keys 1..nk)     *)
 (* Anything else (the check writes {"k":"bad",..} for a panic) is rejected.*)
@@ -49,6 +51,7 @@ Apply(e) ==
     ELSE IF e.k = "clr" THEN LPMapClr(p, e.mod)
     ELSE IF e.k \in {"take", "drop"} THEN LPMapTd(p, e.k, e.n, e.mod)
     ELSE IF e.k = "write" THEN LPWrite(p, e.res, e.frames)
+    ELSE IF e.k = "nop" THEN p
     ELSE LPFail(p, "not-a-lane-event")
 
 Step(e) == LET q == Apply(e)
